@@ -145,6 +145,7 @@ func cmdSinkFaults(f hx.Flags, r *hx.Result) {
 	defer os.RemoveAll(tmp)
 	defer asyncRotationFailure(r, tmp)
 	defer creationFailureKinds(r, tmp)
+	defer siblingAfterOutage(r, tmp)
 	defer consoleErrorKinds(r)
 	n := 0
 	sigs := map[string]bool{}
@@ -349,6 +350,74 @@ func creationFailureKinds(r *hx.Result, tmp string) {
 		}
 		os.RemoveAll(dir)
 		os.RemoveAll(away)
+	}
+}
+
+// siblingAfterOutage: two rolling appenders share a directory (as the RollingFile logger's <name> and <name>.wf do).
+// The directory is away when the first one crosses a boundary, and back before the second one writes for the first time
+// in that interval: the second one's creation is its own attempt and succeeds - one appender's failure says nothing
+// about the other's.
+func siblingAfterOutage(r *hx.Result, tmp string) {
+	dir := filepath.Join(tmp, "sibling")
+	away := dir + ".away"
+	_ = os.MkdirAll(dir, 0o755)
+	defer os.RemoveAll(dir)
+	defer os.RemoveAll(away)
+	var mu sync.Mutex
+	now := time.Date(2038, 3, 4, 5, 0, 0, 0, time.UTC)
+	log.VerifNow = func(time.Time) time.Time { mu.Lock(); defer mu.Unlock(); return now }
+	defer func() { log.VerifNow = nil }()
+	tick := func() { mu.Lock(); now = now.Add(time.Hour); mu.Unlock() }
+	ts := func(t time.Time) string { return t.In(time.Local).Format("20060102150405") }
+	mk := func(name string) *log.RollingFileAppender {
+		return &log.RollingFileAppender{Layout: &log.TextLayout{BaseLayout: log.BaseLayout{FileLineLength: 48}}, FileDir: dir, FileName: name,
+			Rotation: log.TimeRotation{Interval: time.Hour}, MaxAge: 1000}
+	}
+	a, b := mk("app.log"), mk("app.log.wf")
+	if a.Start() != nil || b.Start() != nil {
+		r.SetInfra("siblingAfterOutage: start failed")
+		return
+	}
+	t1 := now
+	desc := map[string]any{"history": "A1, B1, directory away, boundary, A2 (creation fails), directory back, B2, A3, boundary, A4, B3, Stop"}
+	ok, p := hx.Within(10*time.Second, func() {
+		a.Write([]byte("A1\n"))
+		b.Write([]byte("B1\n"))
+		_ = os.Rename(dir, away)
+		tick()
+		a.Write([]byte("A2\n"))
+		_ = os.Rename(away, dir)
+		b.Write([]byte("B2\n"))
+		a.Write([]byte("A3\n"))
+		tick()
+		a.Write([]byte("A4\n"))
+		b.Write([]byte("B3\n"))
+		a.Stop()
+		b.Stop()
+	})
+	r.Eval(7)
+	if !ok || p != nil {
+		r.Violate("blocked:creation-failure", desc, "the history returned=%v panic=%v", ok, p)
+		return
+	}
+	files := map[string]string{}
+	ents, _ := os.ReadDir(dir)
+	all := ""
+	for _, e := range ents {
+		bts, _ := os.ReadFile(filepath.Join(dir, e.Name()))
+		files[e.Name()] = string(bts)
+		all += string(bts)
+	}
+	t2, t3 := t1.Add(time.Hour), t1.Add(2*time.Hour)
+	for _, w := range []string{"A1", "A2", "A3", "A4", "B1", "B2", "B3"} {
+		if strings.Count(all, w+"\n") != 1 {
+			r.Violate("sink-delivery:sibling", desc, "write %s is in the directory %d times; files: %q", w, strings.Count(all, w+"\n"), files)
+			return
+		}
+	}
+	if files["app.log.wf."+ts(t2)] != "B2\n" || files["app.log.wf."+ts(t3)] != "B3\n" || files["app.log."+ts(t3)] != "A4\n" || !strings.HasPrefix(files["app.log."+ts(t1)], "A1\nA2\n") {
+		r.Violate("sink-delivery:sibling", desc, "want app.log.wf.%s = B2 (the sibling's own first attempt in that interval, the directory is back), app.log.wf.%s = B3, app.log.%s = A4, app.log.%s starting with A1 A2; files: %q",
+			ts(t2), ts(t3), ts(t3), ts(t1), files)
 	}
 }
 
